@@ -15,7 +15,7 @@ OWN_ONLY = "--own-only" in sys.argv
 args = [a for a in sys.argv[1:] if a != "--own-only"]
 OUT = args[0]
 SEEDS = args[1:]
-ROOT = "/tmp/seedrun"
+ROOT = os.environ.get("SEEDRUN_ROOT", "/tmp/seedrun")
 CHECKS = ["C%02d" % i for i in range(1, 19)]
 
 
